@@ -54,4 +54,14 @@ def ExactlyOnce (dispatches : Nat) (ls : List Line) : Prop := ls.length = dispat
 /-- §4.2 `cancelled`: present and true on the record of a cancel; §3 status enum; the client's `cancel()` returned -/
 def ReportsCancel (l : Line) : Prop := l.cancelled = true ∧ ReportsOk l
 
+/-- §1 / §5c "one record per line … records are independently parseable": the characters at which a reader that splits
+the log into lines may cut — `str.splitlines()` (what the shipped validator `access_log_conformance.main` and the repository's
+own readers use) splits at every one of these, not only at `\n` -/
+def isLineBoundary (c : Char) : Bool :=
+  c.toNat == 0x0a || c.toNat == 0x0d || c.toNat == 0x0b || c.toNat == 0x0c || c.toNat == 0x1c || c.toNat == 0x1d ||
+    c.toNat == 0x1e || c.toNat == 0x85 || c.toNat == 0x2028 || c.toNat == 0x2029
+
+/-- a written record is one physical line for every such reader -/
+def OneLine (line : Str) : Prop := ∀ c ∈ line, isLineBoundary c = false
+
 end VgiVerif.C34.Spec
